@@ -14,7 +14,9 @@ A self-contained extension of M6 (`Engine.lean`, imported, not modified). Mirror
 * `skipping.py` (`skip_ancestor_failed` only); hook call orders and `firstresult` flags from `Generated`.
 
 Feature scope of this model (the rest is M6's business): no `skip`/`skipif`/`persist` marks, no `force`, `dry_run`,
-`-k`/`-m`, `max_failures`, priorities.
+`-k`/`-m`, `max_failures`, priorities. Consequently `_skip_descendants_of_skipped_tasks` (called by `recreate_dag` since
+0574d89: it renews `skip` marks below tasks whose outcome is SKIP) has no effect here; the teardown check for a
+predecessor that vanished while the task ran (ed849b4) is not modelled either (bodies do not remove their inputs).
 
 Abstractions. Files are node ids (`Nat`), contents are `Nat` (as in M6). A directory pattern is an interval of node
 ids `[lo, lo+len)`: the files that the glob *could* match; it matches those that currently exist. Overlapping
@@ -55,6 +57,7 @@ structure PTask where
   after : List Nat := []
   gen : Bool := false           -- `@task(is_generator=True)`
   fails : Bool := false         -- the body raises before writing anything
+  uncollectable : Bool := false -- as a task defined by a generator: `pytask_collect_task_protocol` reports FAIL for it
 deriving Repr, DecidableEq, Inhabited
 
 /-- What a generator's body defines, given its id and the file lists it received for its pattern dependencies. -/
@@ -79,6 +82,8 @@ def unresolved (sls : List Slot) : Bool := sls.any (fun sl => sl.res.isNone)
 
 def PTask.allDeps (t : PTask) : List Nat := t.cnt.toList ++ t.deps ++ t.pdeps.flatMap Slot.nodes
 def PTask.allProds (t : PTask) : List Nat := t.prods ++ t.pprods.flatMap Slot.nodes
+/-- The product leaves that are no `PProvisionalNode` (any more). -/
+def PTask.ordinaryProds (t : PTask) : List Nat := t.prods ++ t.pprods.flatMap (fun sl => sl.res.getD [])
 def toSpec (t : PTask) : TaskSpec :=
   { id := t.id, src := t.src, deps := t.allDeps, prods := t.allProds, after := t.after }
 def toProject (ts : List PTask) : Project := ⟨ts.map toSpec⟩
@@ -205,6 +210,8 @@ def genExecute (Y : YieldFn) (s : Sess) (tk : PTask) : Sess × Bool :=
   if tk.fails then (s1, true) else
   let kids := Y tk.id (received tk)
   if kids.isEmpty then (s1, true) else
+  -- f1fcb9a: the first collection error of a defined task is raised inside the generator; nothing is added
+  if kids.any (·.uncollectable) then (s1, true) else
   (recreate { s1 with tasks := s1.tasks ++ kids } tk.id, false)
 
 /-- One implementation of `pytask_execute_task`: (session, raised, returned a non-`None` result). -/
@@ -238,6 +245,8 @@ def teardown (s : Sess) (t : Nat) : Sess × Raised :=
   | none => (s, .none)
   | some tk =>
     if tk.gen then (s, .none) else
+    -- 9523bbe: ordinary products are checked before the provisional products are resolved (and the DAG re-created)
+    if tk.ordinaryProds.any (fun p => (lookup s.w.fs p).isNone) then (s, .error) else
     let s' := collectProducts s t
     match findTask s'.tasks t with
     | none => (s', .none)
